@@ -484,7 +484,13 @@ pub fn file_name_from_db_name(db_name: &String) -> String {
 fn load_db_metadata_from_disk_or_empty(name: String, dbs: &Arc<Databases>) -> DatabaseMataData {
     let db_file_name = meta_file_name_from_db_name(name.clone());
     log::debug!("Will read the metadata {} from disk", db_file_name);
-    if Path::new(&db_file_name).exists() {
+    // A metadata file shorter than id + strategy was never completely written (the process was
+    // killed right after creating it): same as no metadata file
+    let is_complete = match fs::metadata(&db_file_name) {
+        Ok(metadata) => metadata.len() >= (U64_SIZE + U32_SIZE) as u64,
+        _ => false,
+    };
+    if is_complete {
         // May I should move this out of here
         let mut file = File::open(db_file_name).unwrap();
         let mut buffer = [0; U64_SIZE];
